@@ -276,15 +276,24 @@ def main(tier):
     V.log("[C20] %d process runs in %.1fs" % (len(results), time.time() - t0))
     if errors:
         raise V.ToolError("driver failed: " + "; ".join(errors[:3]))
+    # A session that could not be brought into the intended state because the SERVER did not answer (or answered with an error) is an
+    # observation, not a tool failure: the run is judged like any other, in the state actually reached ("unresponsive": a session thread
+    # that does not react = the busy case of Shutdown.tla; "wanted" keeps the intended state). Only a process that never answered the LSP
+    # initialize cannot be judged at all; that is reported as a tool error AFTER the verdicts.
     bad_setup = [o for o in results.values() if o["setup"] != "ok"]
-    if len(bad_setup) > len(scs) // 4:
-        raise V.ToolError("session setup failed in %d of %d runs, e.g. %s / %s" % (len(bad_setup), len(scs), bad_setup[0]["setup"], bad_setup[0]["stderr"][-300:]))
+    unjudgeable = [o for o in results.values() if o["setup"] == "LSP initialize failed"]
     recs = []
     for i, o in sorted(results.items()):
-        if o["setup"] != "ok":
+        if o["setup"] == "LSP initialize failed":
             continue
-        recs.append({k: o[k] for k in ("id", "state", "mode", "order", "rc", "ms", "bound", "portAfter", "panicAt", "blocked", "life", "others", "shutdownReply")})
-        recs[-1]["devs"] = devs
+        rec = {k: o[k] for k in ("id", "state", "mode", "order", "rc", "ms", "bound", "portAfter", "panicAt", "blocked", "life", "others", "shutdownReply")}
+        rec["wanted"] = o["state"]
+        if o["setup"] != "ok":
+            rec["state"] = "unresponsive"
+        rec["devs"] = devs
+        recs.append(rec)
+    if not recs:
+        raise V.ToolError("no run could be judged: mos lsp never answered `initialize` (%d runs), e.g. %s" % (len(results), (unjudgeable[0]["stderr"][-300:] if unjudgeable else "")))
     # binding self-test: a corrupted observation must be rejected (status 3 after shutdown+exit; a hang)
     probes = [dict(recs[0], id=10 ** 6, mode="shutdown_exit", rc=3, panicAt="", life=[], others=[]), dict(recs[0], id=10 ** 6 + 1, rc=-1, blocked=["futex_do_wait"], life=[], others=[])]
     verdicts, st = V.judge(os.path.join(SPEC, "ShutdownTrace.tla"), recs + probes, cfg=os.path.join(SPEC, "ShutdownTrace.cfg"), tag="C20-judge", timeout=600)
@@ -302,6 +311,9 @@ def main(tier):
         o = results[v["id"]]
         rep.verdict(v, {"scenario": [s for s in scs if s["id"] == v["id"]][0], "observation": {k: o.get(k) for k in ("rc", "ms", "portAfter", "panicAt", "others", "blocked", "threads", "life", "stderr")},
                         "judge": "spec/Debugger/ShutdownTrace.tla", "why": v.get("why")})
+    for o in bad_setup[:6]:
+        rep.notes.append("run %d: intended state %s not reached (%s); judged in the state reached" % (o["id"], o["state"], o["setup"]))
+    rep.cov["runs_in_unintended_state"] = len(bad_setup)
     rep.cov["traces_validated_against_impl"] = len(recs)
     rep.cov["evaluations"] = len(recs)
     rep.cov["distinct_nontrivial"] = len({(r["state"], r["mode"], r["order"]) for r in recs})
@@ -317,7 +329,12 @@ def main(tier):
     rep.assumptions += ["'promptly' = within %.0f s of the client's last action; a process still alive then is reported with the wait channels of all its threads" % bound,
                         "after closing the pipe any exit status except a panic (101) or a signal is accepted; after shutdown+exit only 0",
                         "'no listening socket left' is read from /proc/net/tcp after the process ended"]
-    return rep.finish()
+    rc = rep.finish()
+    if unjudgeable and len(unjudgeable) > len(scs) // 4:
+        # (after the verdicts) too many processes never came up: the harness or the build is broken, do not call that "held"
+        V.log("TOOL-ERROR: %d of %d mos lsp processes never answered the LSP initialize request" % (len(unjudgeable), len(scs)))
+        return rc if rc == V.EXIT_VIOLATION else V.EXIT_TOOL
+    return rc
 
 
 if __name__ == "__main__":
